@@ -213,6 +213,32 @@ theorem maskBytes_idem (bits : Nat) (a : Bytes) : maskBytes bits (maskBytes bits
   | nil => rfl
   | cons b t ih => simp [maskBytes, maskByte_idem, ih]
 
+theorem maskBytes_maskBytes_le (a b : Nat) (h : a ≤ b) (x : Bytes) :
+    maskBytes a (maskBytes b x) = maskBytes a x := by
+  induction x generalizing a b with
+  | nil => rfl
+  | cons y t ih =>
+    simp only [maskBytes, List.cons.injEq]
+    refine ⟨?_, ih (a - 8) (b - 8) (by omega)⟩
+    unfold maskByte
+    by_cases hb : b ≥ 8
+    · simp [hb]
+    · have ha : ¬ a ≥ 8 := by omega
+      simp only [hb, ha, if_false]
+      have hy : y.toNat < 256 := UInt8.toNat_lt y
+      have hpb : 0 < 2 ^ (8 - b) := Nat.two_pow_pos _
+      have hle : y.toNat / 2 ^ (8 - b) * 2 ^ (8 - b) ≤ y.toNat := Nat.div_mul_le_self _ _
+      have hlt : y.toNat / 2 ^ (8 - b) * 2 ^ (8 - b) < 256 := by omega
+      have e1 : (UInt8.ofNat (y.toNat / 2 ^ (8 - b) * 2 ^ (8 - b))).toNat = y.toNat / 2 ^ (8 - b) * 2 ^ (8 - b) := by
+        simp [UInt8.toNat_ofNat', Nat.mod_eq_of_lt hlt]
+      rw [e1]
+      -- clearing the low (8-b) bits and then the low (8-a) ⊇ them is clearing the low (8-a) bits
+      have hsplit : 2 ^ (8 - a) = 2 ^ (8 - b) * 2 ^ (b - a) := by
+        rw [← Nat.pow_add]; congr 1; omega
+      have : y.toNat / 2 ^ (8 - b) * 2 ^ (8 - b) / 2 ^ (8 - a) = y.toNat / 2 ^ (8 - a) := by
+        rw [hsplit, ← Nat.div_div_eq_div_mul, Nat.mul_div_cancel _ hpb, Nat.div_div_eq_div_mul]
+      rw [this]
+
 theorem normalize_withBits (c : Prefix) (bits : Nat) (h : 1 ≤ bits) :
     normalizeKeyScope (some (c.withBits bits)) = some (c.withBits bits) := by
   unfold normalizeKeyScope Prefix.masked Prefix.withBits
